@@ -1,5 +1,6 @@
-(* Correspondence for C08: threads driven step by step, each running one
-   hub.doInTransaction(body); after every scheduling step the committed table
+(* Correspondence for C08: threads driven step by step, each working through its
+   history of hub.doInTransaction(body) calls and ordinary writes through the hub
+   in between; after every scheduling step the committed table
    (independent DB-API connection), what hub.getConnection() answers in every
    thread, and for every thread whether it is outside / inside / through with
    its doInTransaction, the result, and the state of the transaction it used. *)
@@ -13,14 +14,15 @@ Inductive pview := VIdle | VRun | VDone (r : result) (x : option (bool * bool)).
 
 Record tobs := { b_slot : option cref;       (* the raw thread-local slot of this thread *)
                  b_resolve : option cref;    (* hub.getConnection() in this thread *)
-                 b_phase : pview }.
+                 b_phase : pview;            (* inside a call / the result of its last call (nothing yet: Return [] with no transaction) *)
+                 b_plain : option result }.  (* the outcome of its last ordinary write outside a doInTransaction *)
 Record obs := { o_table : list (Z * row) * Z; o_proc : option cref (* the raw process-level slot *); o_threads : list tobs }.
 
 Record case := {
   c_slots : list (option nat);           (* per thread: the DBConnection bound as its threadConnection, if any *)
   c_proc : option nat;                   (* the DBConnection bound as processConnection, if any *)
   c_table : list (Z * row) * Z;          (* rows and next id before the run *)
-  c_bodies : list (list bstep);          (* one per thread *)
+  c_progs : list (list item);            (* per thread: doInTransaction calls and ordinary writes, in order *)
   c_broken : list (option Z);            (* per thread: the row id whose parent-side instance was left without attributes and with
                                             its flag clear before the run (expire() used to raise on it); no effect on the model *)
   c_sched : list (nat * obs)             (* which thread moves, and what was seen afterwards *)
@@ -42,7 +44,8 @@ Definition pview_eqb (a b : pview) : bool :=
   | _, _ => false
   end.
 Definition tobs_eqb (a b : tobs) : bool :=
-  option_eqb cref_eqb (b_slot a) (b_slot b) && option_eqb cref_eqb (b_resolve a) (b_resolve b) && pview_eqb (b_phase a) (b_phase b).
+  option_eqb cref_eqb (b_slot a) (b_slot b) && option_eqb cref_eqb (b_resolve a) (b_resolve b) && pview_eqb (b_phase a) (b_phase b) &&
+  option_eqb result_eqb (b_plain a) (b_plain b).
 Definition tab_eqb (a b : list (Z * row) * Z) : bool :=
   list_eqb (fun x y => (fst x =? fst y) && list_eqb val_eqb (snd x) (snd y)) (fst a) (fst b) && (snd a =? snd b).
 Definition obs_eqb (a b : obs) : bool :=
@@ -57,31 +60,34 @@ Definition view_phase (ph : phase) : pview :=
 
 Fixpoint seq_from (n k : nat) : list nat := match k with O => [] | S k' => n :: seq_from (S n) k' end.
 
-Definition observe (g : gst) : obs :=
+Definition observe (h : hst) : obs :=
+  let g := h_g h in
   {| o_table := (t_rows (g_committed g), t_next (g_committed g));
      o_proc := g_proc g;
      o_threads := map (fun t => {| b_slot := ts_slot (thread g t); b_resolve := resolve g t;
-                                   b_phase := view_phase (ts_phase (thread g t)) |})
+                                   b_phase := view_phase (ts_phase (thread g t));
+                                   b_plain := nth t (h_plain h) None |})
                       (seq_from 0 (length (g_threads g))) |}.
 
-Definition start (c : case) : gst :=
+Definition start (c : case) : hst :=
+  {| h_todo := c_progs c; h_plain := map (fun _ => None) (c_progs c); h_g :=
   {| g_committed := {| t_rows := fst (c_table c); t_next := snd (c_table c) |};
      g_lock := None;
      g_proc := option_map CDb (c_proc c);
      g_threads := map (fun ib => {| ts_slot := option_map CDb (nth (fst ib) (c_slots c) None);
-                                   ts_phase := PIdle (snd ib) |})
-                      (combine (seq_from 0 (length (c_bodies c))) (c_bodies c)) |}.
+                                   ts_phase := nothing_yet |})
+                      (combine (seq_from 0 (length (c_progs c))) (c_progs c)) |} |}.
 
-Fixpoint first_bad (g : gst) (steps : list (nat * obs)) (n : nat) : option nat :=
+Fixpoint first_bad (g : hst) (steps : list (nat * obs)) (n : nat) : option nat :=
   match steps with
   | [] => None
   | (t, expected) :: rest =>
-      let g' := tick g t in
+      let g' := htick g t in
       if obs_eqb (observe g') expected then first_bad g' rest (S n) else Some n
   end.
 
 Definition agree (c : case) : bool :=
   match first_bad (start c) (c_sched c) 0 with None => true | Some _ => false end.
 
-Fixpoint model_trace (g : gst) (sched : list nat) : list obs :=
-  match sched with [] => [] | t :: rest => let g' := tick g t in observe g' :: model_trace g' rest end.
+Fixpoint model_trace (g : hst) (sched : list nat) : list obs :=
+  match sched with [] => [] | t :: rest => let g' := htick g t in observe g' :: model_trace g' rest end.
